@@ -22,10 +22,15 @@ def main():
     except ImportError as ex:
         vlib.harness_fail("no check module for %s: %s" % (prop, ex))
     if a.replay:
-        if hasattr(mod, "replay"):
-            sys.exit(mod.replay(a.replay))
-        print("replay: re-run `python3 check.py %s --tier %s` with VERIF_SEED from %s/case.json" % (prop, t, a.replay))
-        sys.exit(0)
+        # Case lists are a pure function of (VERIF_SEED, tier): replaying = re-running the check with the
+        # recorded seed; the recorded key must be observed again. The replay directory also holds the
+        # input files of the case (input-*/) for inspection. Evidence of a replay goes to a scratch dir.
+        import json
+        case = json.load(open(os.path.join(a.replay, "case.json")))
+        os.environ["VERIF_SEED"] = str(case.get("seed", 1))
+        os.environ["VERIF_EVID_DIR"] = vlib.mktmp("replay-evid-")
+        vlib.EVID = os.environ["VERIF_EVID_DIR"]
+        print("replaying %s key=%s seed=%s (%s)" % (prop, case.get("key"), case.get("seed"), str(case.get("what"))[:200]), flush=True)
     try:
         mod.run(t)
     except SystemExit:
